@@ -4,6 +4,7 @@ from ..cfg import CFG, call_sites
 from ..facts import strip_generics
 from ..origin import origins, origin_calls
 from ..report import Skip
+from ..throttle import implies
 from . import c13 as _c13
 
 LIB = "watchexec"
@@ -250,6 +251,60 @@ def run(ctx):
 
     _c13.lock_scope(ctx, "R15.8")
 
+    # ---- R15.2b: notify_multi_path_errors never returns an empty list and builds one error per path, of the right kind
+    try:
+        nm = ctx.anchor_fn("R15.2", "watchexec::sources::fs::notify_multi_path_errors")
+        n_emp = n_non = 0
+        for q in pathx.Enum().paths(thir.root(nm)):
+            emp = None
+            for e in q.ev:
+                if e[0] == "branch":
+                    if implies(e[1], e[2], "Vec::is_empty(paths)", True):
+                        emp = True
+                    elif implies(e[1], e[2], "Vec::is_empty(paths)", False):
+                        emp = False
+            top_push = [pathx.desc(e[2]["a"][0]) for e in q.ev if e[0] == "call" and strip_generics(e[1]).endswith("Vec::push")]
+            loops = [e for e in q.ev if e[0] == "loop" and e[2] == "for paths"]
+            if emp is True:
+                n_emp += 1
+                ctx.require(top_push == ["paths"], "R15.2", "multi:fallback-path", "when notify names no path the watched path itself is used", nm.loc(nm.line),
+                            detail=str(top_push), fail="a watch()/unwatch() error that names no path produces no RuntimeError at all: the failure is silently dropped")
+            elif emp is False:
+                n_non += 1
+                ctx.require(top_push == [], "R15.2", "multi:named-paths", "when notify names paths only those are reported", nm.loc(nm.line), detail=str(top_push))
+            else:
+                ctx.violation("R15.2", "multi:paths-tested", "notify_multi_path_errors does not test whether notify named any path", nm.loc(nm.line))
+            okl = len(loops) == 1
+            if okl:
+                for it in loops[0][1]:
+                    pushes = [pathx.desc(e[2]["a"][0]) for e in it if e[0] == "call" and strip_generics(e[1]).endswith("Vec::push")]
+                    okl = okl and pushes == ["errs"] and ("loop-break",) not in it
+            ctx.require(okl and q.val == "errs", "R15.2", "multi:one-error-per-path", "one RuntimeError is pushed per path and the list is returned", nm.loc(nm.line),
+                        fail="notify_multi_path_errors no longer produces exactly one error per failing path")
+        ctx.require(n_emp >= 1 and n_non >= 1, "R15.2", "multi:both-classes", "both cases (notify names paths / names none) are handled", nm.loc(nm.line))
+        # kind of the error follows the `rm` flag, and the two call sites pass the matching literal
+        ifs = [n for n in thir.find(thir.root(nm), "if") if pathx.if_parts(n)[0] == "rm"]
+        ok = False
+        if len(ifs) == 1:
+            _, t_, e_ = pathx.if_parts(ifs[0])
+            tv, evv = thir.expr_value(t_), thir.expr_value(e_)
+            ok = tv[0] == "v" and tv[2] == "PathRemove" and evv[0] == "v" and evv[2] == "PathAdd"
+        ctx.require(ok, "R15.2", "multi:kind", "rm selects FsWatcherError::PathRemove, otherwise PathAdd", nm.loc(nm.line))
+        w2 = ctx.anchor_one("R15.2", "fs worker coroutine", [c for c in facts.children(ctx.anchor_fn("R15.2", "watchexec::sources::fs::worker")) if c.kind == "coroutine"])
+        flags = {}
+        for m in thir.find(thir.root(w2), "match"):
+            if m.get("src") == "ForLoopDesugar":
+                inner = thir.peel(m["e"])
+                if inner.get("k") == "call" and inner.get("a") and pathx.desc(inner["a"][0]) in ("to_drop", "to_watch"):
+                    which = pathx.desc(inner["a"][0])
+                    for c, nd in thir.calls_in(m):
+                        if strip_generics(c).endswith("fs::notify_multi_path_errors"):
+                            flags.setdefault(which, []).append(pathx.desc(nd["a"][3]))
+        ctx.require(flags == {"to_drop": ["True"], "to_watch": ["False"]}, "R15.2", "multi:call-sites", "a failed unwatch is reported as a removal error, a failed watch as an add error",
+                    w2.loc(w2.line), detail=str(flags), fail="the add/remove flag passed to notify_multi_path_errors does not match the operation: %s" % flags)
+    except Skip:
+        pass
+
     # ---- R15.7
     EHK = "watchexec::watchexec::ErrorHook"
     ctx.require(facts.derived(EHK, "Clone") is None, "R15.7", "errorhook-not-clone", "ErrorHook is not Clone",
@@ -266,3 +321,12 @@ def run(ctx):
         ctx.saw_fn(fn)
         ctx.require(fn.locals[1] == EHK, "R15.7", "consumes-self:" + name, "ErrorHook::%s takes self by value" % name, fn.loc(fn.line),
                     detail=fn.locals[1], fail="ErrorHook::%s no longer consumes the hook" % name)
+        # ... and stores the critical error in the slot the hook shares with error_hook (handle_crit reads it back)
+        sets = [[pathx.desc(a) for a in nd["a"]] for c, nd in thir.calls_in(thir.root(fn)) if strip_generics(c).endswith("OnceLock::set")]
+        if name == "critical":
+            ok = sets == [["self.critical", "critical"]]
+        else:
+            ok = len(sets) == 1 and sets[0][0] in ("critical", "self.critical") and sets[0][1].startswith("Elevated{") and sets[0][1].rstrip("}").endswith("err: error")
+        ctx.require(ok, "R15.7", "stores:" + name, "ErrorHook::%s stores the critical error in the hook's OnceLock" % name, fn.loc(fn.line), detail=str(sets),
+                    fail="ErrorHook::%s does not store the %s in the hook's critical slot (%s): the elevation is lost and watchexec keeps running"
+                         % (name, "given critical error" if name == "critical" else "elevated runtime error", sets))
